@@ -684,7 +684,7 @@ def m_str(ex, st, fr, args, kwargs):
     if isinstance(v, VT) and v.t.sort == INT:
         return [(st, "ok", VT(tm.ite(tm.le(0, v.t), tm.str_of_int(v.t), tm.concat("-", tm.str_of_int(tm.sub(0, v.t))))))]
     if isinstance(v, (VObj, VOpaque)):
-        return [(st, "ok", VT(tm.fresh("str", STR)))]
+        return [(st, "ok", VT(tm.approx("str", STR)))]
     raise Unsupported("str of %r" % (v,))
 
 
@@ -843,7 +843,7 @@ def sm_format(ex, st, fr, self, args, kwargs):
                 pieces.append(tm.S(post))
             if ok:
                 return [(st, "ok", VT(tm.concat(*pieces)))]
-    return [(st, "ok", VT(tm.fresh("fmt", STR)))]
+    return [(st, "ok", VT(tm.approx("fmt", STR)))]
 
 
 def sm_lower(ex, st, fr, self, args, kwargs):
